@@ -528,8 +528,13 @@ class UnionMetaType(StructureMetaType):
         for field in fields:
             if isinstance(field.type, StructureMetaType) and field.name is None:
                 # Prefer to write regular fields initially
-                anonymous_struct = field.type
+                if not anonymous_struct:
+                    anonymous_struct = field.type
                 continue
+
+            if anonymous_struct and (anonymous_struct.size or 0) > (field.type.size or 0):
+                # The skipped anonymous struct covers more of the union than any regular field does
+                break
 
             # Write the value
             field.type._write(stream, getattr(data, field._name))
